@@ -310,6 +310,11 @@ func (in *interpreter) concreteDeep(v value) value {
 }
 
 func fmtSprintf(fr *frame, a []value) (value, bool) {
+	if ps := fr.i.ps; ps != nil && ps.captureFmt {
+		id := len(ps.captures)
+		ps.captures = append(ps.captures, a[1].([]value))
+		return fmt.Sprintf("\x00F%d\x00", id), true
+	}
 	return doSprintf(fr, cstr(a[0]), a[1].([]value)), true
 }
 
